@@ -154,6 +154,10 @@ static void run_cmd(const sim::Cmd &c, sim::Out &out)
     if (st.k == Stmt::ASSERT && mentions_objects(st.b))
       st.text += " /*[objects]*/";
 
+  { // what fresh heap blocks hold is part of the simulated environment too: zero, 0xff, 0x5a or whatever was there before
+    static const int fills[] = {-1, 0x00, 0xff, 0x5a};
+    sim::layout::set_poison(static_cast<int>(c.num("poison", fills[sim::Rng(seed).derive("poison").below(4)])));
+  }
   sim::layout::start(sim::mix64(seed * 1000003ULL + layout), layout != 0, 0);
   ratio::solver *s = new ratio::solver();
   Listener *l = new Listener(*s);
